@@ -113,3 +113,13 @@ claim("C05",
             "a panic, and leave the wallet DB byte-identical when it arrives inside a batch. The batched path is run in child processes with 1, 2 and 5 rayon "
             "threads incl. blocks above the 100-output batch threshold and must write exactly the model's rows."),
       note="Trusted: TestFvk helpers that encrypt the outputs; CompactBlock::{hash,prev_hash,height} documented panics are respected. Thread interleavings are sampled, not enumerated. Two server-field panics are known findings.")
+
+claim("C02", category="fault_enumeration",
+      technique="fault-injection enumeration over generated (wallet state, write operation) pairs: SQLite VM-step interrupts, commit veto, crash copies at the commit hook, second-connection snapshots and reader/writer interleavings, with canonical full-database dumps as oracle",
+      text=("For generated states (wallet histories on file-backed wallets) and 12 kinds of write operation the harness owns the SQLite connection: a reference "
+            "run counts VM steps and commits; then enumerated steps are interrupted (about 40 positions per pair in quick, ~700 in thorough; ~5 000 injections per "
+            "quick run). Each faulted run must fail leaving every table identical to the pre-state (or succeed with exactly the reference state), a retry must "
+            "reproduce the reference state, a vetoed COMMIT must leave the pre-state, a byte copy of the database taken inside the commit hook must recover to the "
+            "pre-state, a second connection reading inside one transaction just before the fault must see the pre-state, and get_wallet_summary interleaved with a "
+            "committing writer (WAL) must return the pre- or post-state summary. Enumeration is over sampled positions of sampled pairs, not all of them."),
+      note="Trusted: SQLite's own atomic commit below the commit boundary; SQLITE_INTERRUPT as the stand-in for statement-level failure (transaction-control statements are not interrupted half-way); account UUIDs and address row ids are normalised. store_decrypted_tx / store_transactions_to_be_sent / migration-store writes are not yet among the operations.")
